@@ -37,7 +37,7 @@ class ModuleCheck:
             dump = os.path.join(work, "cex-" + m["cfg"] + ".json")
             extra += ["-dumpTrace", "json", dump]
             rc, out = vlib.run_tlc(work, self.spec, m["cfg"], workers=m.get("workers", vlib.NCPU),
-                                   heap=m.get("heap", "12g"), extra=extra, timeout=m.get("timeout", 3000))
+                                   heap=m.get("heap", "6g"), extra=extra, timeout=m.get("timeout", 3000))
             g, d = vlib.tlc_counts(out)
             err = vlib.tlc_error(out)
             c = {"cfg": m["cfg"], "generated": g, "distinct": d, "wall_s": round(time.time() - t0, 1),
@@ -341,6 +341,9 @@ TEXT = {}
 # RECORD entries of all modules: drivers whose random histories are recorded
 # (VERIF_RECORD_DIR) and replayed by the cross-module checks C11 / C12.
 RECORDS = []
+# CLOCK entries: driver modes that build a *live* history whose chain time sits
+# next to a wall-clock threshold used in the code (C11's clock scenario).
+CLOCKS = []
 
 
 def _load():
@@ -352,6 +355,8 @@ def _load():
         sys.modules[spec.name] = m
         spec.loader.exec_module(m)
         RECORDS.extend(getattr(m, "RECORD", []))
+        if getattr(m, "CLOCK", None):
+            CLOCKS.append(getattr(m, "CLOCK"))
         PROPS.update(getattr(m, "PROPS", {}))
         TEXT.update(getattr(m, "TEXT", {}))
 
